@@ -178,6 +178,17 @@ func (e *engine) runC01() {
 		f, _ := peer.NewSignedMsg(ctx, keys[(i+1)%3].sk, ht, data)
 		f.FromPeerId = k.id.String()
 		e.eavCase(f, ctx, "foreign-signature", tr(false))
+		// … and the attacker also attaches its own key to the signature (three cooperating fields)
+		f2 := f.CloneVT()
+		f2.Signature.PubKey, _ = crypto.MarshalPublicKey(keys[(i+1)%3].pk)
+		e.eavCase(f2, ctx, "foreign-signature-with-attached-key", tr(false))
+		// signature bytes extended / truncated: not what the private key produced
+		t = m.CloneVT()
+		t.Signature.SigData = append(t.Signature.SigData, byte(i))
+		e.eavCase(t, ctx, "extend-sig", tr(false))
+		t = m.CloneVT()
+		t.Signature.SigData = t.Signature.SigData[:63]
+		e.eavCase(t, ctx, "truncate-sig", tr(false))
 		// structural
 		t = m.CloneVT()
 		t.Data = nil
